@@ -468,6 +468,14 @@ type forcedOut struct {
 	nontrivia bool
 }
 
+// mid: model id of a thread for rendering (an id the model never uses when the thread has none)
+func mid(t *thread) int {
+	if t.modelID < 0 {
+		return 999999
+	}
+	return t.modelID
+}
+
 func runForced(sc *FScript) forcedOut {
 	var out forcedOut
 	h := &hooks{threads: map[int64]*thread{}}
@@ -580,6 +588,10 @@ func runForced(sc *FScript) forcedOut {
 			}
 		case "leaf":
 			t := threads[st.T]
+			if t.state != "enter" { // scripted step that does not apply (the implementation answered earlier than the script expects)
+				g.steps = []string{fmt.Sprintf("CLeaf %d%%N", mid(t))}
+				break
+			}
 			t.hold = st.Hold
 			t.enter <- struct{}{}
 			g.steps = []string{fmt.Sprintf("CLeaf %d%%N", t.modelID)}
@@ -589,6 +601,10 @@ func runForced(sc *FScript) forcedOut {
 			}
 		case "add":
 			t := threads[st.T]
+			if t.state != "exit" {
+				g.steps = []string{fmt.Sprintf("CAdd %d%%N", mid(t))}
+				break
+			}
 			t.exit <- struct{}{}
 			waitT(t)
 			g.steps = []string{fmt.Sprintf("CAdd %d%%N", t.modelID)}
@@ -1129,6 +1145,87 @@ func runFreeLocked(seed uint64, res *vh.Result) (int, int) {
 	return len(h), overl
 }
 
+// runStress: long same-key histories, checked by counting (consequences of linearizability that need no search):
+// G goroutines x N increments through Set / SetOrRemove callbacks must add up; GetOrCreate creates exactly once;
+// successful SetValue / RemoveValue on one key alternate; Len() = number of keys afterwards.
+func runStress(seed uint64, sh Shape, res *vh.Result) int {
+	rp := FreeReplay{Free: "stress", Shape: sh, Seed: seed}
+	m := sh.build()
+	const G, N = 6, 150
+	keys := []uint64{3, 3 + 64*4*4} // same leaf under "mod" routing for most shapes
+	var created, added, removed atomic.Int64
+	var wg sync.WaitGroup
+	start := make(chan struct{})
+	for g := 0; g < G; g++ {
+		wg.Add(1)
+		go func(g int) {
+			defer wg.Done()
+			<-start
+			for i := 0; i < N; i++ {
+				k := keys[(g+i)%2]
+				apply(m, Op{Kind: "set", Key: k, Kn: Kc{K: "inc"}, Ks: Kc{K: "inc"}})
+				apply(m, Op{Kind: "setorremove", Key: k + 1, Kn: Kc{K: "inc"}, Ks: Kc{K: "inc"}})
+				if r := apply(m, Op{Kind: "getorcreate", Key: 900, Kn: Kc{K: "val", V: g + 1}}); r.A {
+					created.Add(1)
+				}
+				if g%2 == 0 {
+					if apply(m, Op{Kind: "setvalue", Key: 500, Val: 1}).A {
+						added.Add(1)
+					}
+				} else if apply(m, Op{Kind: "removevalue", Key: 500}).A {
+					removed.Add(1)
+				}
+			}
+		}(g)
+	}
+	close(start)
+	wg.Wait()
+	mp := m.Map()
+	if got := mp[keys[0]] + mp[keys[1]]; got != G*N {
+		res.Fail("lost-update", fmt.Sprintf("stress on %s: %d increments through Set callbacks, values add up to %d", sh.Name, G*N, got), rp)
+	}
+	if got := mp[keys[0]+1] + mp[keys[1]+1]; got != G*N {
+		res.Fail("lost-update", fmt.Sprintf("stress on %s: %d increments through SetOrRemove callbacks, values add up to %d", sh.Name, G*N, got), rp)
+	}
+	if created.Load() != 1 {
+		res.Fail("getorcreate-not-once", fmt.Sprintf("stress on %s: GetOrCreate reported created %d times for one key", sh.Name, created.Load()), rp)
+	}
+	_, present := mp[500]
+	if d := added.Load() - removed.Load(); d != 0 && d != 1 || (d == 1) != present {
+		res.Fail("add-remove-not-alternating", fmt.Sprintf("stress on %s: %d successful SetValue, %d successful RemoveValue, key present=%v", sh.Name, added.Load(), removed.Load(), present), rp)
+	}
+	if m.Len() != len(mp) {
+		res.Fail("len-not-keys", fmt.Sprintf("stress on %s: Len() = %d, keys = %d", sh.Name, m.Len(), len(mp)), rp)
+	}
+	// Locked
+	l := util.NewLocked(0)
+	e := util.EmptyLocked[int]()
+	var lcreated atomic.Int64
+	start2 := make(chan struct{})
+	for g := 0; g < G; g++ {
+		wg.Add(1)
+		go func(g int) {
+			defer wg.Done()
+			<-start2
+			for i := 0; i < N; i++ {
+				applyLocked(l, LOp{Kind: "set", Kn: Kc{K: "inc"}, Ks: Kc{K: "inc"}})
+				if applyLocked(e, LOp{Kind: "getorcreate", Kn: Kc{K: "val", V: g + 1}}).A {
+					lcreated.Add(1)
+				}
+			}
+		}(g)
+	}
+	close(start2)
+	wg.Wait()
+	if v, _ := l.Value(); v != G*N {
+		res.Fail("lost-update", fmt.Sprintf("stress on Locked: %d increments through Set, value %d", G*N, v), rp)
+	}
+	if lcreated.Load() != 1 {
+		res.Fail("getorcreate-not-once", fmt.Sprintf("stress on Locked: GetOrCreate created %d times", lcreated.Load()), rp)
+	}
+	return 4*G*N + 2*G*N
+}
+
 // ------------------------------------------------------------------ main
 
 func freeMain(o *vh.Opts, out string) {
@@ -1155,6 +1252,11 @@ func freeMain(o *vh.Opts, out string) {
 		res.Count(fmt.Sprintf("freelocked-%d", i), ov > 0)
 		res.Distribution["free-locked-ops"] += n
 		res.Distribution["free-locked-overlapping-pairs"] += ov
+	}
+	for i := 0; i < o.Pick(40, 600); i++ {
+		n := runStress(r.U64(), shapes[i%len(shapes)], res)
+		res.Count(fmt.Sprintf("stress-%d", i), true)
+		res.Distribution["stress-ops"] += n
 	}
 	b, _ := json.Marshal(res)
 	if err := os.WriteFile(out, b, 0o644); err != nil {
@@ -1184,6 +1286,10 @@ func main() {
 				r2 := vh.NewResult("")
 				runFreeMap(rp.Seed, rp.Shape, rp.Reset, r2)
 				fmt.Printf("replay free map: failures=%v\n", r2.Failures)
+			case rp.Free == "stress":
+				r2 := vh.NewResult("")
+				runStress(rp.Seed, rp.Shape, r2)
+				fmt.Printf("replay stress: failures=%v\n", r2.Failures)
 			case rp.Free == "locked":
 				r2 := vh.NewResult("")
 				runFreeLocked(rp.Seed, r2)
@@ -1191,7 +1297,7 @@ func main() {
 			}
 		}
 	}
-	cases := &vh.Cases{Import: "From MV Require Import C32.Model.", Type: "case", CheckFn: "check", Shard: 150}
+	cases := &vh.Cases{Import: "From MV Require Import C32.Model.", Type: "case", CheckFn: "check", Shard: 80}
 	r := vh.NewRand(o.Seed)
 
 	// A
